@@ -26,6 +26,7 @@ struct BoolArgs {
   Paths subj, open, clip;
   int zcb = 0;
   int64_t zconst = 0;
+  int64_t defaultZ = 0;
 };
 struct BoolResult {
   bool ok = false;
